@@ -1,4 +1,3 @@
 /* CBMC-only ghosts for contracts/strpriv.spec */
 size_t CI_D;          /* compare_ci: index examined by the step in progress */
 const char *CI_PROBE; int CI_HIT; size_t CI_WIT;   /* compare_ci contract stub: witness recorded for the candidate at CI_PROBE */
-int TRC_CI;   /* last element-wise comparison was case-insensitive */
